@@ -440,6 +440,9 @@ func run(c *hlib.Ctx) {
 	runBits(c)
 	runPinchBits(c)
 	runBits2(c)
+	runNest3(c)
+	runNest2(c)
+	runSmallDet(c)
 }
 
 func main() { hlib.Main("C05", run) }
